@@ -24,13 +24,17 @@ type renegCase struct {
 	PauseUs int    `json:"pause_us"`
 	Probes  int    `json:"probes"` // exchanges before the pause
 	Size    uint32 `json:"size"`
+	// Refused: the second Tversion names a version that is not 9P2000.L; it is
+	// answered (unknown, 0) and the first negotiation stays in force
+	Refused bool `json:"refused,omitempty"`
 }
 
 func runRenegCase(c renegCase) *fail {
 	s := peers.Start(p9.NewServer(nullAttacher{}))
 	defer s.Close(10 * time.Second)
-	if _, err := s.Version(c.First, "9P2000.L.Google.7"); err != nil {
-		return failf("harness-version", "HARNESS-ERROR %v", err)
+	rv1, err := s.Version(c.First, "9P2000.L.Google.7")
+	if err != nil || rv1.Type != refcodec.Rversion {
+		return failf("harness-version", "HARNESS-ERROR %v %v", rv1, err)
 	}
 	tag := uint16(0x100)
 	probe := func() *fail {
@@ -48,12 +52,22 @@ func runRenegCase(c renegCase) *fail {
 		}
 	}
 	time.Sleep(time.Duration(c.PauseUs) * time.Microsecond)
-	rv, err := s.Version(c.Second, "9P2000.L.Google.7")
+	version2 := "9P2000.L.Google.7"
+	if c.Refused {
+		version2 = "9P2000.u"
+	}
+	rv, err := s.Version(c.Second, version2)
 	if err != nil || rv.Type != refcodec.Rversion {
 		return failf("tversion-not-rversion:renegotiation", "second Tversion(msize %d) answered %v (%v)", c.Second, rv, err)
 	}
 	limit := uint32(rv.U("msize"))
-	what := fmt.Sprintf("msize %d, then %d (announced %d) after %d exchanges and %d us of quiet; next frame with size field %d", c.First, c.Second, limit, c.Probes, c.PauseUs, c.Size)
+	if c.Refused {
+		if rv.S("version") != "unknown" || limit != 0 {
+			return failf("tversion-refusal:renegotiation", "Tversion(msize %d, 9P2000.u) answered %v, want (unknown, 0)", c.Second, rv)
+		}
+		limit = uint32(rv1.U("msize")) // nothing was negotiated
+	}
+	what := fmt.Sprintf("refused=%v: msize %d, then %d (limit in force %d) after %d exchanges and %d us of quiet; next frame with size field %d", c.Refused, c.First, c.Second, limit, c.Probes, c.PauseUs, c.Size)
 	tag++
 	if c.Size < 7 || c.Size > limit {
 		hdr := make([]byte, 7)
